@@ -2,6 +2,4 @@ package main
 
 func genWritePaths(repo string) string { return "namespace Stfs.Gen\nend Stfs.Gen\n" }
 func genLocks(repo string) string      { return "namespace Stfs.Gen\nend Stfs.Gen\n" }
-func genGuards(repo string) string     { return "namespace Stfs.Gen\nend Stfs.Gen\n" }
-func genOpenFlags(repo string) string  { return "namespace Stfs.Gen\nend Stfs.Gen\n" }
 func genFacts(repo string) string      { return "{}\n" }
